@@ -875,6 +875,7 @@ impl<'comments> Formatter<'comments> {
             } if name == "True"
                 && annotation.is_none()
                 && kind.is_expect()
+                && !kind.is_backpassing()
                 && patterns.len() == 1 =>
             {
                 header.append(self.case_clause_value(value))
